@@ -86,12 +86,14 @@ class BodyLocks:
         self.yields = []          # (block, Term, held)
         self.acquires = []        # (block, Term, held-before, (kind, class))
         self.entry_guards = set()
-        self._run()
+        self.must_at = {}         # block -> frozenset(guard locals certainly live at the block's terminator)
+        self._run(must=False)
+        self._run(must=True)
 
     def cls(self, l):
         return self.guards[l]
 
-    def _run(self):
+    def _run(self, must=False):
         fn = self.fn
         G = self.guards
         nb = len(fn.blocks)
@@ -127,30 +129,35 @@ class BodyLocks:
             if t.k == "call":
                 moved = [a.place.local for a in t.args if a.place is not None and a.kind == "move" and a.place.is_local() and a.place.local in st]
                 held = frozenset(st)
-                if not blk.cleanup:
+                if must:
+                    self.must_at[b] = held
+                elif not blk.cleanup:
                     self.calls.append((b, t, held))
                 for m in moved:
                     succ_state.discard(m)
                 if t.dest.is_local() and t.dest.local in G:
-                    if not blk.cleanup:
+                    if not blk.cleanup and not must:
                         self.acquires.append((b, t, held, G[t.dest.local]))
                     succ_state.add(t.dest.local)
             elif t.k == "drop":
                 held = frozenset(st)
-                if not blk.cleanup:
+                if must:
+                    self.must_at[b] = held
+                elif not blk.cleanup:
                     self.drops.append((b, t, held))
                 if t.place.is_local():
                     succ_state.discard(t.place.local)
             elif t.k == "yield":
-                if not blk.cleanup:
+                if not blk.cleanup and not must:
                     self.yields.append((b, t, frozenset(st)))
             out = frozenset(succ_state)
             for s2 in t.succs(cleanup=False):
-                new = out if IN[s2] is None else (IN[s2] | out)
+                new = out if IN[s2] is None else ((IN[s2] & out) if must else (IN[s2] | out))
                 if IN[s2] is None or new != IN[s2]:
                     IN[s2] = new
                     work.append(s2)
-        self.IN = IN
+        if not must:
+            self.IN = IN
 
 
 EFFECTS = [
@@ -183,6 +190,7 @@ class LockAnalysis:
             self.fns[fid] = f
         self._impl_index()
         self._closure_cache = {}
+        self.must_edges = defaultdict(list)
         self.edges = defaultdict(list)   # caller id -> list of (callee id, frozenset(classes held at site), ln, via)
         self.unresolved = []
         self.ctx = defaultdict(set)      # fn id -> classes that may be held on entry: (kind, class)
@@ -211,7 +219,14 @@ class LockAnalysis:
             if f.kind == "closure" and f.parent in self.fns:
                 p = self.fns[f.parent]
                 if p.impl_trait and p.impl_trait.endswith("eviction::Eviction") and p.id.rsplit("::", 1)[-1] in ("acquire", "release"):
-                    self.op_closures[p.id.rsplit("::", 1)[-1]].append(fid)
+                    # which Op constructor is the closure handed to?
+                    ctor = "?"
+                    for b in p.blocks:
+                        t = b.term
+                        if t.k == "call" and t.callee and re.search(r"eviction::Op::<E>::(mutable|immutable)$", t.callee):
+                            if any(flow._closure_def_of(p, a, self.F.P if p.form == "P" else self.F.E) == fid for a in t.args):
+                                ctor = t.callee.rsplit("::", 1)[-1]
+                    self.op_closures[p.id.rsplit("::", 1)[-1]].append((fid, ctor))
 
     def _closure_of(self, fn, operand):
         tab = self.F.P if fn.form == "P" else self.F.E
@@ -229,10 +244,21 @@ class LockAnalysis:
         tr = t.trait
         if tr:
             name = callee.rsplit("::", 1)[-1]
-            # normalise re-exported trait paths by suffix match on the last two segments
+            gens = fn.callee_generics(t)
+            self_ty = gens[0] if gens else None
+            self_head = None
+            if self_ty:
+                st = self_ty.lstrip("&").replace("mut ", "").strip()
+                if "::" in st.split("<")[0] and not st.startswith("<") and not st.startswith("dyn "):
+                    self_head = st.split("<")[0]
+            # normalise re-exported trait paths by suffix match on the last segment
             for (tp, nm), ids in self.trait_impls.items():
                 if nm == name and (tp == tr or tp.split("::")[-1] == tr.split("::")[-1]):
                     for i in ids:
+                        if self_head is not None:
+                            ih = (self.fns[i].self_ty or "").split("<")[0]
+                            if ih.split("::")[-1] != self_head.split("::")[-1]:
+                                continue
                         out.append((i, "impl of " + tr))
             for (tp, nm), i in self.trait_defaults.items():
                 if nm == name and tp.split("::")[-1] == tr.split("::")[-1] and (i, "direct") not in out:
@@ -245,27 +271,66 @@ class LockAnalysis:
                 sl = backslice(fn, t.args[0], "prov")
                 for which in ("acquire", "release"):
                     if sl.has_call(r"Eviction::%s$" % which):
-                        for c in self.op_closures[which]:
-                            out.append((c, "Eviction::%s operator" % which))
-        # closures (and fn items) handed to the call are assumed to be run by it
-        for a in t.args:
+                        # the payload was taken out of Op::Immutable(..) or Op::Mutable(..): only the matching operators can be meant
+                        want = None
+                        for of, n in sl.fields:
+                            if of.endswith("eviction::Op::Immutable"):
+                                want = "immutable"
+                            elif of.endswith("eviction::Op::Mutable"):
+                                want = "mutable"
+                        for (c, ctor) in self.op_closures[which]:
+                            if want is None or ctor == want:
+                                out.append((c, "Eviction::%s operator (%s)" % (which, ctor)))
+        # closures (and fn items) handed to a call are assumed to be run by it — unless the callee is an analysed body that
+        # provably only stores its parameter (e.g. `Op::mutable(f)` boxes f): then the parameter must reach an Fn*::call there
+        local_callee = self.fns.get(self.by_cid.get(cid)) if cid in self.by_cid else None
+        for ai, a in enumerate(t.args):
             if a.place is not None:
                 ty = fn.local_ty(a.place.local) if a.place.is_local() else ""
                 if "{closure@" in ty or "{async block@" in ty or "{async closure@" in ty or "{coroutine@" in ty:
                     cdef = self._closure_of(fn, a)
                     if cdef and cdef in self.fns and not (FN_CALL.search(callee) and a is t.args[0]):
+                        if local_callee is not None and not self._param_is_called(local_callee, ai + 1):
+                            continue
                         out.append((cdef, "closure argument of " + short_path(callee)))
             elif a.const is not None and a.const.get("cid") in self.by_cid:
                 out.append((self.by_cid[a.const["cid"]], "fn item argument"))
         return out
+
+    def _param_is_called(self, g, param):
+        key = (g.id, param)
+        if key in self._closure_cache:
+            return self._closure_cache[key]
+        res = False
+        tab = self.F.P if g.form == "P" else self.F.E
+        bodies = [g] + [c for c in tab.values() if c.root == g.id and c is not g]
+        for body in bodies:
+            for b in body.blocks:
+                t = b.term
+                if t.k == "call" and t.callee and t.args:
+                    if FN_CALL.search(t.callee):
+                        sl = backslice(body, t.args[0], "prov")
+                        if body is g and param in sl.args:
+                            res = True
+                        if body is not g and sl.upvars:
+                            res = True   # captured and called inside a nested closure: assume it is our parameter
+                    elif body is g:
+                        # forwarded to another call by value: be conservative (assume it may be run)
+                        for a in t.args:
+                            if a.place is not None and a.place.is_local() and a.place.local == param and not re.search(r"Box::<T>::new$|Arc::<T>::new$", t.callee):
+                                res = True
+        self._closure_cache[key] = res
+        return res
 
     def _build_edges(self):
         for fid, bl in self.bodies.items():
             fn = bl.fn
             for (b, t, held) in bl.calls:
                 classes = frozenset(bl.cls(l) for l in held)
+                mclasses = frozenset(bl.cls(l) for l in bl.must_at.get(b, ()))
                 for (cid, via) in self.callees(fn, t):
                     self.edges[fid].append((cid, classes, t.ln, via))
+                    self.must_edges[fid].append((cid, mclasses, via))
 
     def _propagate(self):
         work = list(self.fns)
@@ -285,6 +350,50 @@ class LockAnalysis:
                             self.why[(cid, c)] = (fid, ln, via)
                         self.ctx[cid] |= add
                         changed = True
+
+    def must_ctx(self):
+        """fn id -> set of (kind, class) that are held on EVERY call path into the function (greatest fixpoint; functions
+        without callers in the analysed crates — public entry points — hold nothing)"""
+        if hasattr(self, "_must"):
+            return self._must
+        incoming = defaultdict(list)
+        for caller, es in self.must_edges.items():
+            for (cid, classes, via) in es:
+                if self.fns[cid].kind in ("coroutine", "coroutine_body") and via.startswith("closure argument"):
+                    continue
+                incoming[cid].append((caller, classes))
+        ALL = None
+        must = {fid: (ALL if incoming.get(fid) else frozenset()) for fid in self.fns}
+        changed = True
+        while changed:
+            changed = False
+            for fid in self.fns:
+                inc = incoming.get(fid)
+                if not inc:
+                    continue
+                acc = ALL
+                for (caller, classes) in inc:
+                    mc = must[caller]
+                    cl2 = frozenset(classes) | frozenset(("any", c) for (k, c) in classes)
+                    here = None if mc is ALL else (cl2 | mc)
+                    if here is None:
+                        continue
+                    acc = here if acc is ALL else (acc & here)
+                if acc is not ALL and acc != must[fid]:
+                    must[fid] = acc
+                    changed = True
+        self._must = {k: (v if v is not None else frozenset()) for k, v in must.items()}
+        return self._must
+
+    def must_held_at(self, fid, block):
+        """classes certainly held when the terminator of `block` in body fid executes (local must-analysis is approximated by
+        the may-set of the body when it has a single guard live there, plus the must-context of the body)"""
+        bl = self.bodies[fid]
+        local = None
+        if block in bl.must_at:
+            local = frozenset(bl.cls(l) for l in bl.must_at[block])
+            local = local | frozenset(("any", c) for (k, c) in local)
+        return (local or frozenset()) | self.must_ctx()[fid]
 
     # -- queries ------------------------------------------------------------------------------------------
     def held_at(self, fid, held_locals):
